@@ -18,7 +18,9 @@
 (*   a walk function may raise at a node (set `fail` of <<node, map>>      *)
 (*   pairs, chosen once: the walk functions are deterministic); as the     *)
 (*   code is written (ResetOnRaise = FALSE) the exception leaves stack and *)
-(*   memo as they are; ResetOnRaise = TRUE is the repair (both cleared).   *)
+(*   memo as they are; ResetOnRaise = TRUE is the repair (stack cleared,   *)
+(*   a one-shot memo cleared, a persistent memo kept: its entries are      *)
+(*   values of the pure function).                                         *)
 (*   A node computed while a child is not memoised is the KeyError of      *)
 (*   _compute_node_result.                                                 *)
 (* Spec layer: the pure function R(root, map) / PureOutcome(root, map):    *)
@@ -80,7 +82,7 @@ Init == /\ memo = <<>> /\ stack = <<>> /\ root = 0
 \* an exception propagates out of walk(): what is left behind
 Raise(cls, rest) ==
    /\ ret' = Exc(cls) /\ pc' = "check"
-   /\ IF ResetOnRaise THEN stack' = <<>> /\ memo' = <<>>
+   /\ IF ResetOnRaise THEN stack' = <<>> /\ memo' = IF OneShot THEN <<>> ELSE memo
                       ELSE stack' = rest /\ UNCHANGED memo
 
 \* public call: DagWalker.walk(expression, **kwargs)
